@@ -224,6 +224,25 @@ impl ReceiveChannelUnreliable {
     }
 }
 
+#[cfg(renet_verif)]
+impl SendChannelUnreliable {
+    pub fn verif_memory(&self) -> usize {
+        self.memory_usage_bytes
+    }
+}
+
+#[cfg(renet_verif)]
+impl ReceiveChannelUnreliable {
+    pub fn verif_memory(&self) -> usize {
+        self.memory_usage_bytes
+    }
+
+    /// Message ids under reassembly
+    pub fn verif_slices(&self) -> Vec<u64> {
+        self.slices.keys().copied().collect()
+    }
+}
+
 #[cfg(test)]
 mod tests {
     use octets::OctetsMut;
